@@ -64,7 +64,8 @@ func runC20(s *kernel.Sim) {
 	}
 	s.Knobs["predicate_hangs_at"], s.Knobs["predicate_hangs_for"] = hangAt, hangFor.String()
 	type obs struct {
-		t        time.Duration // start of the check (the earliest instant the state can count as observed)
+		t        time.Duration // start of the check
+		ret      time.Duration // the instant the evaluation answered: from then on the state has been observed
 		v        bool
 		returned bool // the evaluation has answered: only then is it an observation
 	}
@@ -101,7 +102,7 @@ func runC20(s *kernel.Sim) {
 				s.FaultFired("predicate_evaluation_hangs")
 				time.Sleep(hangFor)
 			}
-			observations[i].returned = true
+			observations[i].returned, observations[i].ret = true, s.Now()
 			return v
 		},
 		OnChangeToTrue: func() {
@@ -147,7 +148,7 @@ func runC20(s *kernel.Sim) {
 		if observations[r.nObs-1].v != r.v || runLen < need {
 			s.Violate("R2", "reaction-without-consecutive-confirmations", "reaction %v at %v but only the last %d observation(s) show that state, consecutive=%d", name20(r.v), r.t, runLen, consecutive)
 		}
-		if span := r.t - observations[runStart].t; span < stable {
+		if span := r.t - observations[runStart].ret; span < stable {
 			s.Violate("R2", "reaction-before-stable-period", "reaction %v at %v: the state has been observed for %v, stable period is %v", name20(r.v), r.t, span, stable)
 		}
 		s.Rule("R3")
